@@ -128,7 +128,8 @@ def run_tlc(ctx, module, cfg, workers=4, simulate=None, expect_violation=None, t
         subst.setdefault("Seed", ctx.seed % 60000)
     if subst:
         for k, v in subst.items():
-            cfg_txt, n = re.subn(r"^(\s*)%s = .*$" % k, r"\g<1>%s = %s" % (k, v), cfg_txt, flags=re.M)
+            rhs = ("%s %s" % (k, v)) if str(v).startswith("<-") else ("%s = %s" % (k, v))
+            cfg_txt, n = re.subn(r"^(\s*)%s (=|<-) .*$" % k, r"\g<1>" + rhs, cfg_txt, flags=re.M)
             if n != 1:
                 raise ToolError("constant %s not found in %s" % (k, cfg))
         cfg_path = ctx.path(cfg)
